@@ -15,7 +15,10 @@ THEOREMS = {
             "C03.all_applied_rows", "C03.none_applied_rows", "C03.applied_iff_requires",
             "Lemmas.Rev.step_up", "Lemmas.Rev.step_down", "Lemmas.Rev.mem_unmergeTo", "Lemmas.Rev.mem_mergeFrom"],
     "C05": [],
-    "C15": [],
+    "C15": ["C15.cyclic_rejected", "C15.detect_rejects_cycle", "C15.acyclic_accepted", "C15.acyclic_loads",
+            "C15.acyclic_no_cycle", "C15.heads_bases", "C15.closure_total",
+            "Lemmas.Rev.peel_of_ranked", "Lemmas.Rev.peel_keeps_cycle", "Lemmas.Rev.ranked_of_peel",
+            "Lemmas.Rev.detect_ok_of_ranked", "Lemmas.Rev.mem_closureOf_iff"],
     "C16": [],
 }
 PARTIAL = {}
